@@ -36,7 +36,29 @@ def build(tier, seed):
         kern.assumptions = ['offsets of non-bit-field members are multiples of 8 bits']
         kern.bounds = ['<= 3 fields per composite; sizes, alignments, offsets: any usize']
         return [kern]
+    def field():
+        comp = rd('ir/comp.rs')
+        m = re.search(r'CXCursor_FieldDecl => \{', comp)
+        if not m:
+            raise SliceError('CompInfo::from_ty: CXCursor_FieldDecl arm not found')
+        arm = comp[m.end() - 1:match_brace(comp, m.end() - 1)]
+        a = arm.find('let comment = cur.raw_comment();')
+        endtok = 'ci.fields.append_raw_field(field);'
+        b = arm.find(endtok, a)
+        if a < 0 or b < 0:
+            raise SliceError('FieldDecl arm: record region (let comment .. append_raw_field) not found')
+        region = arm[a:b + len(endtok)]
+        h = open(os.path.join(G, 'harness', 'c06_field.rs')).read().replace('/*FIELD_RECORD*/', region)
+        kk = Kernel(name='field_record')
+        kk.files = {'src/lib.rs': h}
+        kk.harnesses = [H('a_member_is_recorded_with_the_numbers_libclang_reports_whatever_the_options', desc='tail of the CXCursor_FieldDecl arm of CompInfo::from_ty: the recorded RawField carries the offset libclang reported (Some iff Ok), the bit width, type, access and name - for every combination of options', sample='12 options x cursor answers')]
+        kk.encoded = [enc('ir/comp.rs', 'CompInfo::from_ty: CXCursor_FieldDecl arm, record region', region)]
+        kk.stubs = ['clang::Cursor: raw_comment / spelling / public_accessible / offset_of_field answers', 'RawField::new: records its arguments', 'Options: twelve presentation options, all symbolic']
+        kk.bounds = ['no loops; every option combination']
+        return kk
     try:
-        return k()
+        ks = k()
     except SliceError as e:
-        return [Kernel(name='assertion_blocks', error='slice-failed: %s' % e)]
+        ks = [Kernel(name='assertion_blocks', error='slice-failed: %s' % e)]
+    ks.append(kernel_or_error('field_record', field))
+    return ks
